@@ -663,6 +663,7 @@ def _bee_case(maxlen: int):
         "origin": st.sampled_from([0x0, 0x60000000, 0x70000000, 0x7FFFFC00, 0xFFF00000]),
         "facs": st.lists(st.fixed_dictionaries({"gap": st.integers(0, 3), "n": st.integers(1, max(6, maxlen // 4096)), "eng": st.integers(0, 1), **fac}), min_size=1, max_size=4),
         "engines": st.lists(eng, min_size=2, max_size=2), "via": st.sampled_from(["api", "api", "config"]), "sel": st.sampled_from(["engine0", "engine1", "both", "both"]),
+        "fac_order": st.sampled_from([0, 0, 1, 2]),
         **_geometry(64, max(20, maxlen // 1024), maxlen),
     })
 
@@ -683,6 +684,12 @@ def run_bee(case, o: Oracle, work: str) -> None:
     base, n = _image_geometry(case, spans, 16, case.get("maxlen", 16384))
     image = _content(case["seed"], n)
     per_engine = {i: [(s, e, f["level"]) for f, (s, e) in zip(facs, spans) if f["eng"] == i] for i in used}
+    # the order in which an engine's regions are written down is free (ascending, descending, starting in the middle)
+    order = case.get("fac_order", 0)
+    if order:
+        per_engine = {i: (r[::-1] if order == 1 else r[1:] + r[:1]) for i, r in per_engine.items()}
+        if any(len(r) >= 2 for r in per_engine.values()):
+            o.label("bee_regions_not_ascending")
     active = lambda a: any(s <= a < e for s, e in spans)  # noqa: E731
     _classify(o, base, n, spans, 1024, active)
     o.label("bee_sel:" + sel)
